@@ -382,7 +382,61 @@ func (c *Coll) Dump(flavor int) []uint32 {
 		c.C.QueryKey(KeyTokens[k], func(r column.Row) error { found, at = true, int(r.Index()); return nil })
 		keys[k] = [2]any{found, at}
 	}
-	w.T.Log(Ev{"e": "dump", "c": c.Name, "count": c.C.Count(), "tcount": tcount, "rows": rows, "filler": filler,
-		"keys": keys, "sorted": sorted, "flavor": flavor})
+	e := Ev{"e": "dump", "c": c.Name, "count": c.C.Count(), "tcount": tcount, "rows": rows, "filler": filler,
+		"keys": keys, "sorted": sorted, "flavor": flavor}
+	// ascending iteration over a NARROW selection as well: the rows whose value in another (numeric) column equals k
+	if len(c.Sorts) > 0 {
+		var ic *ColDesc
+		for i, d := range c.Cols {
+			isSorted := false
+			for _, s := range c.Sorts {
+				isSorted = isSorted || s[1] == d.Name
+			}
+			if d.Kind == "int" && !isSorted {
+				ic = &c.Cols[i]
+				break
+			}
+		}
+		if ic != nil {
+			k := w.T.Len() % 10
+			// (preferably the value of a row that holds NO value in the sorted column: if ascending iteration were to visit a row
+			// it should not, it would be such a row)
+			var cand []int
+			for _, o := range tr {
+				v := vals[uint32(o)]
+				if v == nil {
+					continue
+				}
+				pa, okA := v[ic.Name].([2]any)
+				ps, okS := v[c.Sorts[0][1]].([2]any)
+				if okA && okS && pa[0] == true && ps[0] == false {
+					cand = append(cand, toInt(pa[1]))
+				}
+			}
+			if len(cand) > 0 {
+				k = cand[w.T.Len()%len(cand)]
+			}
+			narrow := map[string][][2]any{}
+			c.C.Query(func(txn *column.Txn) error {
+				txn.WithValue(ic.Name, func(v any) bool { return toInt(c.fromAny(*ic, v)) == k })
+				for _, s := range c.Sorts {
+					d, attached := c.Desc(s[1])
+					seq := [][2]any{}
+					txn.Ascend(s[0], func(idx uint32) {
+						if !attached {
+							seq = append(seq, [2]any{int(idx), []int{}})
+							return
+						}
+						p := c.ReadRow(txn, column.Row{}, d, 1)
+						seq = append(seq, [2]any{int(idx), p[1]})
+					})
+					narrow[s[0]] = seq
+				}
+				return nil
+			})
+			e["narrow"] = Ev{"col": ic.Name, "k": k, "seq": narrow}
+		}
+	}
+	w.T.Log(e)
 	return offs
 }
